@@ -274,8 +274,15 @@ class Ctx:
     def _modfile_args(self):
         repo = repo_path()
         # keep go.sum in step with the repository
+        # (only when it differs, and atomically: several checks may run at the same time)
         try:
-            shutil.copy(os.path.join(repo, "go.sum"), os.path.join(HARNESS, "go.sum"))
+            src, dst = os.path.join(repo, "go.sum"), os.path.join(HARNESS, "go.sum")
+            want = open(src, "rb").read()
+            have = open(dst, "rb").read() if os.path.exists(dst) else None
+            if have is None or not set(want.splitlines()) <= set(have.splitlines()):
+                tmp = "%s.%d.tmp" % (dst, os.getpid())
+                open(tmp, "wb").write(want)
+                os.replace(tmp, dst)
         except Exception:
             pass
         if repo == "/repo":
